@@ -68,7 +68,7 @@ MANIFEST = {
             "set — exactly the labels operands of the reporting scope mention and that scope does not define (never empty); "
             "UndeclaredInstructionMacro n only for a name that is not an instruction macro of its scope; DuplicateMacro n exactly for a "
             "scope defining n twice; UndeclaredExpressionMacro n only when the reporting scope declares no expression macro n; "
-            "MacroArgumentCount n only for an instruction macro n of the reporting scope; MacroRecursionLimit n only for a declared macro; USE-SITE forms: the same scope "
+            "MacroArgumentCount n only for an instruction macro n of the reporting scope; MacroRecursionLimit n only for a declared macro; DivisionByZero only if the scope's text contains a division; DuplicateLabel l only if l is written twice (top level or one macro body) or is a mangled name. USE-SITE forms: the same scope "
             "contains the call / invocation (with a different argument count) / `$v` in its text and lacks (has) the definition. The repaired defect D28 (too few arguments for an expression macro) is recorded as C13_missing_argument_rejected. Simulation invariant by induction over fuel, for all programs and suffix supplies.",
     "note": "Trusted: Lean kernel; Asm/Assemble.lean tied to asm.rs (as repaired) by the differential run on well-formed programs and 14 "
             "fault kinds at random positions; Asm/Spec.lean is my formalisation of 'well formed'; which error is reported first when "
